@@ -86,11 +86,56 @@ func TestWorker(t *testing.T) {
 	enc := json.NewEncoder(bw)
 	start := time.Now()
 	n := 0
+	sweepsDone := 0
 	for idx := wi; idx < maxRuns; idx += wn {
 		if time.Since(start) > wall {
 			break
 		}
 		spec := cs.RunSpec{Property: prop, Seed: seed, Index: idx, FaultFree: faultFreeIndex(idx)}
+		if prop == "C10" && idx%6 == 3 && (os.Getenv("VERIF_TIER") == "thorough" || sweepsDone < 1) {
+			// complete single-fault sweep over the requests of a fault-free base run
+			base := spec
+			base.Mode, base.FaultFree = "sweep-base", true
+			fmt.Fprintf(bw, "{\"begin\":%d}\n", idx)
+			bw.Flush()
+			br := dispatchRun(t, base)
+			_ = enc.Encode(compact(br, len(br.Viol) > 0 || br.Machinery != ""))
+			nreq := 0
+			if f, ok := br.Extra["sweep_requests"].(float64); ok {
+				nreq = int(f)
+			}
+			maxReq := 400
+			if os.Getenv("VERIF_TIER") != "thorough" {
+				maxReq = 90
+			}
+			aborted := false
+			if nreq > 0 && nreq <= maxReq && br.Machinery == "" && !br.Inconcl {
+				sweepsDone++
+				for i := 0; i < nreq && !aborted; i++ {
+					if time.Since(start) > 2*wall {
+						aborted = true
+					}
+					for _, kind := range []string{"err-before", "lost-response", "crash-before", "crash-after"} {
+						sp := base
+						sp.Mode, sp.SweepAt, sp.SweepKind = "sweep", i, kind
+						r := dispatchRun(t, sp)
+						if r.Extra == nil {
+							r.Extra = map[string]any{}
+						}
+						r.Extra["sweep_runs"] = float64(1)
+						_ = enc.Encode(compact(r, len(r.Viol) > 0 || r.Machinery != ""))
+					}
+				}
+				if !aborted {
+					done := cs.RunResult{Spec: base, Extra: map[string]any{"sweep_bases_completed": float64(1), "sweep_base_requests": float64(nreq)}}
+					done.Spec.Mode = "sweep-summary"
+					_ = enc.Encode(done)
+				}
+			}
+			bw.Flush()
+			n++
+			continue
+		}
 		// progress marker so that a run that kills the process can be replayed
 		fmt.Fprintf(bw, "{\"begin\":%d}\n", idx)
 		bw.Flush()
@@ -414,6 +459,14 @@ func newAgg() *agg {
 }
 
 func (a *agg) add(r cs.RunResult) {
+	if r.Spec.Mode == "sweep-summary" {
+		for k, v := range r.Extra {
+			if f, ok := v.(float64); ok {
+				a.extraSum[k] += f
+			}
+		}
+		return
+	}
 	a.runs++
 	if r.Spec.FaultFree {
 		a.faultFree++
@@ -513,7 +566,9 @@ var commonAssumptions = []string{
 	"simulated with go1.26.8 + testing/synctest (fake clock); the project pins go1.23.8",
 }
 
-var metas = map[string]propMeta{}
+var metas = map[string]propMeta{
+	"C10": {Level: "fault_enumeration", Rule: "two parts: (a) a complete single-fault sweep: for seeded fault-free base runs, one run per (API request of the base run x {error before effect, effect with lost response, crash before the request, crash after the request}) - coverage key sum_sweep_runs counts them, sum_sweep_bases_completed the bases swept completely; (b) seeded random fault sequences, drift and schedules. Every run is compared epoch by epoch with the undisturbed reference run of the same scenario (end-state projection), must reach quiescence within the calm-step budget, and must be idle under an extra pass of every controller. Non-trivial = the comparison was reached; distinct = distinct interleaving signatures"},
+}
 
 func metaOf(prop string) propMeta {
 	m, ok := metas[prop]
@@ -620,7 +675,15 @@ func TestDriver(t *testing.T) {
 		runs := a.viol[k]
 		sort.Slice(runs, func(i, j int) bool { return runs[i].Steps < runs[j].Steps })
 		base := runs[0]
-		small, rep := shrink(t, base, v.Rule, v.Sig, 400, time.Now().Add(120*time.Second))
+		maxReplays := 400
+		if os.Getenv("VERIF_NO_SHRINK") != "" {
+			maxReplays = 1
+		}
+		budget := 120 * time.Second
+		if prop == "C10" && tier != "thorough" {
+			budget = 40 * time.Second
+		}
+		small, rep := shrink(t, base, v.Rule, v.Sig, maxReplays, time.Now().Add(budget))
 		// final traced replay
 		spec := small.Spec
 		spec.Replay, spec.Trace = true, true
